@@ -2097,7 +2097,7 @@ def main(R):
                nontrivial=ft["leaves"] + ft["nodes"] >= 2, sample={k: v for k, v in case.items() if k != "runs"} if i % 40 == 7 else None)
     if quick:
         for i, (case, n, exhaustive) in enumerate(planned):
-            if i >= 40 and time.time() - t_save > 60:
+            if i >= 10 and time.time() - t_save > 70:
                 # the quick tier has a wall-clock budget: on a loaded machine the stream is cut (the count is in the evidence)
                 R.extra["save_stream_cut_at"] = i
                 break
@@ -2118,7 +2118,11 @@ def main(R):
             register(i, case, n, exhaustive)
     lap("save")
     # ---- (2) resave over a directory with content
+    t_stream = time.time()
     for i in range(50 if quick else 600):
+        if quick and i >= 15 and time.time() - t_stream > 20:
+            R.extra["resave_stream_cut_at"] = i
+            break
         d1, d2, kind = gen_resave(rng)
         nt = rng.choice([0, 0, 2, 4])
         n = n_tasks(d2)
@@ -2135,7 +2139,11 @@ def main(R):
     lap("resave")
     # ---- (3) make_memmap* / refresh
     cfg = {"max_depth": 2, "kinds": ["td", "ntd", "lazy", "tc", "nts"]}
+    t_stream = time.time()
     for i in range(60 if quick else 800):
+        if quick and i >= 15 and time.time() - t_stream > 20:
+            R.extra["grow_stream_cut_at"] = i
+            break
         d = gen_td(rng, rng.choice(BATCHES), 0, cfg)
         ops, after = gen_grow_ops(rng, d)
         nt = rng.choice([0, 0, 2, 8])
@@ -2149,7 +2157,11 @@ def main(R):
     # ---- (4) live view; a few child processes
     n_live = 40 if quick else 400
     children = {1: "fork", 5: "fork", 9: "fork", 13: "spawn"} if quick else {i: ("spawn" if i % 50 == 13 else "fork") for i in range(0, n_live, 5)}
+    t_stream = time.time()
     for i in range(n_live):
+        if quick and i >= 15 and time.time() - t_stream > 30:
+            R.extra["live_stream_cut_at"] = i
+            break
         desc = gen_structure(rng)
         api = apis[i % 4]
         nt = rng.choice([0, 2, 4])
